@@ -269,6 +269,9 @@ static bool gen_cmp(Bld &b, bool viol) {
     bool memlike = fn == FN_memcmp_s || fn == FN_memcmp16_s || fn == FN_memcmp32_s || fn == FN_wmemcmp_s || fn == FN_timingsafe_bcmp || fn == FN_timingsafe_memcmp;
     int64_t rmax = memlike ? MAXMEM / esz : wide ? MAXWSTR : MAXSTR;
     Dm d = pick_dmax(r, cap1, esz, rmax, viol && r.chance(1, 2));
+    // the fold buffers of the case-insensitive wide compares are sized from dmax/smax, and the fold loop does not
+    // bound its writes (heap overflow, C01): never declare less than the string really occupies
+    if ((fn == FN_wcsicmp_s || fn == FN_wcsnatcmp_s) && d.dmax > 0 && d.dmax <= MAXWSTR && d.dmax < (int64_t)w1.size() + 1) d.dmax = cap1;
     b.op.a[0] = (viol && r.chance(1, 8)) ? -1 : (int64_t)o1;
     b.op.a[1] = d.dmax;
     b.op.a[2] = (viol && r.chance(1, 8)) ? -1 : (int64_t)o2;
@@ -825,6 +828,7 @@ static bool gen_uni(Bld &b, bool viol, int force_flavour = -1) {
         b.op.a[3] = r.chance(1, 3);
         b.op.a[4] = (int64_t)b.put(std::string((const char *)&lenv, 8), 8, 8); // lenp == NULL is dereferenced before it is checked (unrelated defect)
         if (b.op.a[1] == 0) b.op.a[1] = 1; // dmax == 0 is not rejected by this stage (an unrelated defect, C01/C05)
+        if (b.op.a[1] > 1 && b.op.a[1] <= MAXWSTR && b.op.a[1] < (int64_t)len + 2) b.op.a[1] = std::max<uint32_t>(cap, len + 2); // too-small dmax > 1: unbounded memcpy (C01)
         if (tight) b.op.a[1] = 1; // larger-but-too-small dmax values run into an unrelated out-of-bounds defect (C01) of this stage
         break;
     }
@@ -919,7 +923,7 @@ bool gen_alloc_op(Rng &r, TaskPlan &tp, uint32_t *top, int locale) {
 
 bool gen_op(Rng &r, int fam, TaskPlan &tp, uint32_t *top, const GenCfg &cfg, bool stdio_ok, int locale) {
     Bld b(r, tp, *top, locale);
-    bool viol = cfg.violations && r.chance(1, 6);
+    bool viol = cfg.violations && (cfg.force_violation || r.chance(1, 6));
     bool ok;
     switch (fam) {
     case FAM_INPLACE: ok = gen_inplace(b, viol); break;
